@@ -3,6 +3,8 @@
 import json, os
 ROOT = os.path.dirname(os.path.dirname(os.path.abspath(__file__)))
 tab = json.load(open(os.path.join(ROOT, "tools", "manifest_table.json")))
+import glob
+tab["checks"] = {os.path.basename(f)[:-5]: json.load(open(f)) for f in sorted(glob.glob(os.path.join(ROOT, "tools", "manifest_entries", "C*.json")))}
 props = [json.loads(l) for l in open(os.path.join(ROOT, "properties.jsonl"))]
 checks, na = [], []
 for p in props:
